@@ -329,6 +329,10 @@ def make_group(rng, n=None, k=None):
         # label names that contain one another (left_eye / left_eyebrow ...), in arbitrary order
         nested = ["eye", "left_eye", "left_eyebrow", "brow", "eyebrow", "e", "left", "left_eye_2"]
         names = [nested[j] for j in rng.permutation(len(nested))[:len(masks)]]
+        if rng.random() < 0.4:
+            # a label is a name, not a pattern: names with wildcard / bracket / regex characters next to names they would match
+            special = ["eye*", "eye_left", "pt?", "pt1", "[x]y", "xy", "*", "a.b", "a+b", "aab"]
+            names = [special[j] for j in rng.permutation(len(special))[:len(masks)]]
         masks = OrderedDict(zip(names, masks.values()))
     E = gen.random_undirected_edges(rng, n)
     if rng.random() < 0.4:
@@ -425,7 +429,12 @@ def w_groups(ctx, rng, i):
             g.add_label(redo, new_idx)
     idx = np.nonzero(rng.random(g.n_points) < 0.5)[0]
     if len(idx):
-        g2 = g.add_label("added", idx if rng.random() < 0.5 else idx.tolist())
+        # the members of the new label in any of the forms numpy accepts as an index: positions, a list, positions counted
+        # from the end, a membership mask (another label's mask, say)
+        form = int(rng.integers(0, 4))
+        member = np.zeros(g.n_points, dtype=bool)
+        member[idx] = True
+        g2 = g.add_label("added", idx if form == 0 else idx.tolist() if form == 1 else (idx - g.n_points) if form == 2 else member)
         g2.with_labels(["added"])
         g2.without_labels("added")
         g2.remove_label("added")
@@ -449,6 +458,17 @@ def w_groups(ctx, rng, i):
         ctx.fail("group_with_an_unlabelled_point_accepted", cls="LabelledPointUndirectedGraph")
     except ValueError:
         pass
+    # ... whatever is said about skipping the (costly) checks of the graph structure
+    for how in ("constructor", "init_from_edges"):
+        try:
+            if how == "constructor":
+                ms.LabelledPointUndirectedGraph(g.points, g.adjacency_matrix, OrderedDict((l, m.copy()) for l, m in masks.items()), skip_checks=True)
+            else:
+                e_ = np.array([(a_, b_) for a_, b_ in zip(*np.nonzero(np.triu(np.asarray(g.adjacency_matrix.todense()))))], dtype=int).reshape(-1, 2)
+                ms.LabelledPointUndirectedGraph.init_from_edges(g.points, e_, OrderedDict((l, m.copy()) for l, m in masks.items()), skip_checks=True)
+            ctx.fail("group_with_an_unlabelled_point_accepted", cls="LabelledPointUndirectedGraph", mech=how + ":skip_checks")
+        except ValueError:
+            pass
     ctx.count_case(("group", k, g.n_points // 8, dropped), nontrivial=dropped, sample={"n_points": int(g.n_points), "labels": names} if i < 3 else None)
 
 
